@@ -8,6 +8,7 @@ def run(prog, rec, tier):
     B.tables()
     B.encoder()
     B.validator_decoder()
+    B.decoder()
     rec.extra['explanation'] = (
         'Alphabet and decode table from RFC 4648; the encoder interpreted for input lengths 0..19 over symbolic bytes: every output position '
         'is alphabet[the right 6-bit field of the 24-bit group] (bit-field terms), "=" padding and the NUL terminator in place; the exact '
